@@ -102,6 +102,7 @@ vh::Outcome run_c03(const vh::Case& c, bool with_faults) {
             });
         }
         vrt::join_all();
+        vrt::disable_faults();
         // one sequence of states: every mask read is a prefix-union of the application order
         // (bits of modifies that threw in the first application are rolled back and must never be seen)
         std::vector<uint64_t> order;
@@ -184,8 +185,15 @@ vh::Outcome run_c04(const vh::Case& c) {
                             cm.bit = uint64_t(1) << (nbit++ % 60);
                             cm.lock_call = vrt::now_step();
                             writers_waiting++;
-                            COW::handle h = cow.lock();
+                            std::optional<COW::handle> hopt;
+                            try { hopt.emplace(cow.lock()); }
+                            catch (const vrt::InjectedFault&) {
+                                if (!c.sched.fault_k) vrt::fail("escaped-fault", "fault without a plan");
+                                if (vrt::me().held != 0) vrt::fail("lock-leaked-on-throw", "cow_guarded::lock left the writer mutex locked after the payload copy threw");
+                            }
                             writers_waiting--;
+                            if (!hopt) { cm.bit = 0; cm.cancelled = true; continue; }   // never pop: other fibers may have appended meanwhile
+                            COW::handle& h = *hopt;
                             cm.lock_ret = vrt::now_step();
                             if (!h) vrt::fail("null-handle", "cow_guarded::lock returned a null handle");
                             uint64_t init = h->read();
@@ -210,7 +218,7 @@ vh::Outcome run_c04(const vh::Case& c) {
                                 h.cancel();
                                 if (h) vrt::fail("cancel-not-null", "handle is non-null after cancel()");
                                 if (vrt::me().held != 0) vrt::fail("cancel-holds-lock", "the writer lock is still held after cancel()");
-                                if (op.a & 1) {
+                                if ((op.a & 1) && !c.sched.fault_k) {
                                     // the cancelled handle object stays alive while this fiber writes again
                                     commits.emplace_back();
                                     Commit& c2 = commits.back();
@@ -257,6 +265,7 @@ vh::Outcome run_c04(const vh::Case& c) {
                 });
             }
             vrt::join_all();
+            vrt::disable_faults();
             uint64_t fin = cow.lock_shared()->read();
             uint64_t exp = 0; for (auto b : order) exp |= b;
             if (fin != exp) vrt::fail("final-value", "final committed value is not the union of all commits (lost update or cancelled data published)");
@@ -270,6 +279,7 @@ vh::Outcome run_c04(const vh::Case& c) {
     if (lbl_cancel_while_blocked) out.labels.push_back("cancel-while-writer-blocked");
     if (lbl_moved) out.labels.push_back("moved-write-handle");
     out.nontrivial = lbl_reread_after_commit || lbl_snapshot_outlived || lbl_cancel_while_blocked;
+    if (c.sched.fault_k) { out.nontrivial = out.res.faults_fired > 0; if (out.res.faults_fired) out.labels.push_back("fault-fired"); }
     return out;
 }
 
@@ -278,6 +288,9 @@ vh::GenSpec c04_spec(bool thorough) {
     g.sched_len = thorough ? 256 : 176; g.aux_len = 16;
     return g;
 }
+vh::GenSpec c20cow_spec(bool th) { vh::GenSpec g = c04_spec(th); g.fault_max = 8; g.fault_mask = vrt::F_COPY; return g; }
+vh::Register r_c20cow("C20cow", c20cow_spec(false), c20cow_spec(true), run_c04,
+                      "as C04 with a fault plan: the k-th payload copy (made inside cow_guarded::lock) throws; the writer mutex must be released and later writers and readers proceed");
 vh::Register r_c04("C04", c04_spec(false), c04_spec(true), run_c04,
                    "generated cow_guarded writers (lock, modify, release / cancel, handle moves, re-lock while a cancelled handle object is alive) and readers taking snapshots that they keep across "
                    "later commits x generated schedule; non-trivial = a snapshot was re-read after a later commit, or a cancel happened while another writer was blocked in lock()");
